@@ -8,7 +8,7 @@ import numpy as np
 
 from solvers import solve_with_batch, COMBOS, Prepared, dense_design, solver_cells
 
-UNITS = ["SolverStruct", "BatchGen", "DesignGen"]
+UNITS = ["SolverStruct", "BatchGen", "DesignGen", "ShapesSolvers"]
 PROPS = ["props/C06.v"]
 ASSUMPTIONS = ["LAPACK posv: info = 0 -> A x = b (conformance-checked on every call made by this run); backward-error accuracy is a tolerance check (1e-7 relative)"]
 
@@ -23,6 +23,10 @@ def datasets(rng, N, n_coef):
         out.append((kind, d, f))
     # tiny amplitudes: the columns of the different orders scale as |u|, |u|^2, |u|^3 -- small but perfectly determined
     out.append(("tiny-amplitude", rng.normal(size=(need + 6, N, 3)) * 0.0003, rng.normal(size=(need + 6, N, 3))))
+    # repeated displacement patterns (bit-identical rows) with unequal multiplicities and independent noisy forces
+    base_d = rng.normal(size=(need + 4, N, 3)) * 0.05
+    reps = np.concatenate([base_d, base_d[[0, 0, 0, 1, 2, 2]]])
+    out.append(("repeated-rows", reps, rng.normal(size=(len(reps), N, 3))))
     # rank deficient: displacements confined to one direction of one atom
     d = np.zeros((need + 3, N, 3))
     d[:, 0, 0] = rng.normal(size=need + 3) * 0.05
